@@ -812,6 +812,8 @@ func Gen(run *vlib.Run, seed uint64, tier string) {
 	}
 	run.Extra["fl_exhaustive_small"] = nex
 
+	genFLBin(run, r.Fork("flbin"), tier)
+
 	rk := r.Fork("kern")
 	for i, n := 0, vlib.Count(tier, 3000, 100000); i < n; i++ {
 		b, src := genKernBytes(rk, rk.Range(1, 6))
